@@ -106,6 +106,7 @@ def run_route(case):
     for idx, op in enumerate(case['ops']):
         exc = None
         reply = None
+        pyname = None
         try:
             if op[0] == 'log':
                 reply = disp.handle_request(conns[op[1]], ('logging', op[2], op[3]))
@@ -114,6 +115,7 @@ def run_route(case):
             elif op[0] == 'disc':
                 disp.remove_connection(conns[op[1]])
             elif op[0] == 'emit':
+                pyname = logging.getLevelName(op[2]).lower()      # record.levelname.lower(), CPython data for the model
                 mods[op[1]].log.log(op[2], 'e%d', idx)
             else:
                 raise AssertionError(op)
@@ -131,7 +133,7 @@ def run_route(case):
                     msgs.append(['?', repr(msg), '', None])
             c.got = []
             sent.append(msgs)
-        steps.append({'exc': exc, 'sent': sent,
+        steps.append({'exc': exc, 'sent': sent, 'pyname': pyname,
                       'reply': None if reply is None else [reply[0], json.loads(json.dumps(reply[1], default=repr))]})
     return {'steps': steps, 'levels': [[k, v] for k, v in flog.LOG_LEVELS.items()]}
 
@@ -239,11 +241,11 @@ def enc_level(v):
     return 'LOther'
 
 
-def enc_op(op):
+def enc_op(op, pyname=None):
     if op[0] == 'log':
         return f'(OLogging {gal.nat(op[1])} {gal.option(op[2], gal.string)} {enc_level(op[3])})'
     if op[0] == 'emit':
-        return f'(OEmit {gal.string(op[1])} {gal.z(op[2])})'
+        return f'(OEmit {gal.string(op[1])} {gal.z(op[2])} {gal.string(pyname or "")})'
     if op[0] == 'idn':
         return f'(OIdent {gal.nat(op[1])})'
     return f'(ODisconnect {gal.nat(op[1])})'
@@ -268,7 +270,8 @@ def encode(case, obs):
             robs.append('{| r_exc := %s; r_sent := [%s] |}' % (EXC.get(s['exc'], '(Some XOther)'), '; '.join(sent)))
         return 'CRoute %s %s %s [%s]' % (
             gal.lst(obs['levels'], lambda p: gal.pair(p, gal.string, gal.z)),
-            gal.lst(case['mods'], gal.string), gal.lst(case['ops'], enc_op), '; '.join(robs))
+            gal.lst(case['mods'], gal.string),
+            '[' + '; '.join(enc_op(o, st.get('pyname')) for o, st in zip(case['ops'], obs['steps'])) + ']', '; '.join(robs))
     steps = ['{| s_date := %s; s_raised := %s; s_listing := %s |}' % (
         gal.string(s['date']), gal.boolean(s['exc'] is not None), gal.lst(s['listing'], enc_entry))
         for s in obs['steps']]
@@ -397,16 +400,7 @@ def oracle(case, obs):
 
 
 # ------------------------------------------------------------------ known finding classes (narrow)
-def _is_unnamed_level(case, obs, failure):
-    if case['kind'] != 'route' or failure['class'] != 'missed-delivery':
-        return False
-    op = case['ops'][failure['op']]
-    s = obs['steps'][failure['op']]
-    return op[0] == 'emit' and op[2] not in SPEC_NAMES and s['exc'] == 'KeyError'
-
-
 FINDING_CLASSIFIERS = {
-    'record_level_without_name': _is_unnamed_level,
 }
 
 
